@@ -15,11 +15,13 @@ import (
 	"crypto/x509"
 	"encoding/base64"
 	"encoding/json"
+	"encoding/pem"
 	"fmt"
 	"net/http"
 	"net/http/httptest"
 	"os"
 	"strconv"
+	"strings"
 	"sync"
 	"time"
 
@@ -119,7 +121,7 @@ func newEnv(k *Case) (*Env, error) {
 		return nil, err
 	}
 	extra := []authority.Option{
-		authority.WithWebhookClient(&http.Client{Transport: tr, Timeout: 300 * time.Millisecond}),
+		authority.WithWebhookClient(&http.Client{Transport: tr, Timeout: 30 * time.Second}),
 		authority.WithX509CAService(&faultCAS{SoftCAS: soft, rec: e.rec}),
 	}
 	yes := true
@@ -159,6 +161,11 @@ func newEnv(k *Case) (*Env, error) {
 			d.DB = e.fdb
 			return d
 		},
+	}
+	o.Config = func(cfg *config.Config) {
+		if cfg.SSH == nil { // SignSSHAddUser reads config.SSH.AddUserPrincipal / AddUserCommand
+			cfg.SSH = &config.SSHConfig{}
+		}
 	}
 	if k.CRL {
 		o.CRL = &config.CRLConfig{Enabled: true, GenerateOnRevoke: true, CacheDuration: &provisioner.Duration{Duration: 24 * time.Hour}}
@@ -224,6 +231,77 @@ func (r httpResp) got() string {
 		return "ack"
 	}
 	return "none"
+}
+
+// handed is one certificate found in a response: the table it must be recorded in and its key.
+type handed struct{ table, serial string }
+
+func x509Handed(pemStr string) (handed, bool) {
+	blk, _ := pem.Decode([]byte(pemStr))
+	if blk == nil {
+		return handed{}, false
+	}
+	crt, err := x509.ParseCertificate(blk.Bytes)
+	if err != nil {
+		return handed{}, false
+	}
+	return handed{"x509_certs", crt.SerialNumber.String()}, true
+}
+
+func sshHanded(b64 string) (handed, bool) {
+	raw, err := base64.StdEncoding.DecodeString(b64)
+	if err != nil {
+		return handed{}, false
+	}
+	pub, err := ssh.ParsePublicKey(raw)
+	if err != nil {
+		return handed{}, false
+	}
+	crt, ok := pub.(*ssh.Certificate)
+	if !ok {
+		return handed{}, false
+	}
+	return handed{"ssh_certs", strconv.FormatUint(crt.Serial, 10)}, true
+}
+
+// certs lists every certificate the response hands to the client (crt, addUserCrt,
+// identityCrt of the sign / renew / rekey / SSH handlers).
+func (r httpResp) certs() []handed {
+	var out []handed
+	one := func(v any) {
+		str, ok := v.(string)
+		if !ok || str == "" {
+			return
+		}
+		if strings.HasPrefix(str, "-----BEGIN") {
+			if h, ok := x509Handed(str); ok {
+				out = append(out, h)
+			}
+		} else if h, ok := sshHanded(str); ok {
+			out = append(out, h)
+		}
+	}
+	one(r.body["crt"])
+	one(r.body["addUserCrt"])
+	if l, ok := r.body["identityCrt"].([]any); ok && len(l) > 0 {
+		one(l[0])
+	}
+	return out
+}
+
+// recorded counts how many of the handed certificates are in their table (looked up by
+// serial behind the recorder's back).
+func (e *Env) recorded(hs []handed) int {
+	if e.fdb == nil {
+		return 0
+	}
+	n := 0
+	for _, h := range hs {
+		if _, err := e.fdb.DB.Get([]byte(h.table), []byte(h.serial)); err == nil {
+			n++
+		}
+	}
+	return n
 }
 
 // ---- prerequisites (run with the recorder off)
@@ -390,6 +468,40 @@ func (e *Env) prepare(k *Case) (*httpReq, error) {
 			body.ValidBefore = api.NewTimeDuration(time.Now().Add(100000 * time.Hour))
 		}
 		tok, err := sshToken(e, "host", "host.verif.test", principals, key)
+		if err != nil {
+			return nil, err
+		}
+		body.OTT = tok
+		return &httpReq{h: api.SSHSign, path: "/1.0/ssh/sign", body: body}, nil
+
+	case "sshsignfull":
+		// a user certificate, plus the add-user certificate (addUserPublicKey) and the X.509
+		// identity certificate (identityCSR) the same handler issues with it
+		mk := func() (ssh.PublicKey, error) {
+			priv, err := ecdsa.GenerateKey(elliptic.P256(), rand.Reader)
+			if err != nil {
+				return nil, err
+			}
+			return ssh.NewPublicKey(priv.Public())
+		}
+		pub, err := mk()
+		if err != nil {
+			return nil, err
+		}
+		addPub, err := mk()
+		if err != nil {
+			return nil, err
+		}
+		const user = "alice"
+		idCSR, _, err := fixture.CSR(user, []string{user})
+		if err != nil {
+			return nil, err
+		}
+		body := &api.SSHSignRequest{PublicKey: pub.Marshal(), CertType: "user", KeyID: user, Principals: []string{user},
+			AddUserPublicKey: addPub.Marshal(), IdentityCSR: api.NewCertificateRequest(idCSR)}
+		tok, err := e.ca.Token(fixture.TokenOpts{Subject: user, NoSANs: true,
+			Extra: map[string]any{"aud": []string{fixture.Audience("/1.0/ssh/sign"), fixture.Audience("/1.0/sign")},
+				"step": map[string]any{"ssh": map[string]any{"certType": "user", "keyID": user, "principals": []string{user}}}}})
 		if err != nil {
 			return nil, err
 		}
